@@ -384,7 +384,7 @@ def mk_atoms(facts):
 NONNULL = type('NonNull', (), {'__repr__': lambda self: '<not None>'})()
 
 
-def explore(stmts, atoms, names=(), upto=None, max_paths=20000, exceptions=False, env0=None, may_raise=None, is_subclass=None, nonnull=(ast.Tuple, ast.List, ast.Dict, ast.Set, ast.JoinedStr)):
+def explore(stmts, atoms, names=(), upto=None, max_paths=20000, exceptions=False, env0=None, may_raise=None, is_subclass=None, nonnull=(ast.Tuple, ast.List, ast.Dict, ast.Set, ast.JoinedStr), mark=None):
     """Feasible control-flow paths of `stmts` under the 3-valued atom valuation `atoms(expr)` (branches whose test evaluates to a constant are
     pruned; constants assigned to plain locals on the path are tracked, so `flag = True ... if flag:` is followed).  Returns one dict per
     path: kind ('return'/'raise'/'fall'/'continue'/'break' or 'upto'), stmt (the terminating Return/Raise statement or None),
@@ -444,6 +444,10 @@ def explore(stmts, atoms, names=(), upto=None, max_paths=20000, exceptions=False
             for t in (node.ast.targets if isinstance(node.ast, ast.Assign) else [node.ast.target]):
                 if isinstance(t, (ast.Subscript, ast.Attribute)):
                     stores = stores + ((src(t), src(node.ast.value), type(node.ast).__name__),)
+        if mark is not None and node.ast is not None:
+            lab_ = mark(node)
+            if lab_ is not None:
+                stores = stores + (('<mark>', str(lab_), 'Mark'),)
         if node.kind == 'stmt' and isinstance(node.ast, ast.Expr) and isinstance(node.ast.value, (ast.Yield, ast.YieldFrom)):
             stores = stores + (('<yield>', src(node.ast.value.value) if node.ast.value.value is not None else 'None', type(node.ast.value).__name__),)
         if node.kind == 'stmt' and isinstance(node.ast, (ast.Return, ast.Raise)):
@@ -452,7 +456,11 @@ def explore(stmts, atoms, names=(), upto=None, max_paths=20000, exceptions=False
     for p, (cenv, env, calls, last, stores) in cfg.paths(state0=(dict(env0 or {}), {}, (), None, ()), step=step, max_paths=max_paths):
         kind = cfg.nodes[p[-1][0]].info
         if upto is None:
-            res.append({'kind': kind, 'stmt': last if kind in ('return', 'raise') else None, 'calls': calls, 'env': env, 'path': cfg.fmt_path(p), 'stores': stores, 'consts': cenv})
+            rv = UNK
+            if kind == 'return' and isinstance(last, ast.Return) and last.value is not None:
+                rv = eval3(last.value, {k_: v_ for k_, v_ in cenv.items() if v_ is not NONNULL}, atoms)
+            res.append({'kind': kind, 'stmt': last if kind in ('return', 'raise') else None, 'calls': calls, 'env': env, 'path': cfg.fmt_path(p), 'stores': stores, 'consts': cenv,
+                        'retval': rv})
     return res
 
 
